@@ -310,7 +310,7 @@ def _tla_rec(pairs) -> str:
     return "(" + " @@ ".join(f"{_tla_str(k)} :> {v}" for k, v in pairs) + ")"
 
 
-def render_tla(zoo: dict, module: str = "Zoo", classes: list[str] | None = None) -> str:
+def render_tla(zoo: dict, module: str = "Zoo", classes: list[str] | None = None, poolset: str = "plain") -> str:
     zi = ZooInfo(zoo)
     order = classes or zi.all_order
     L = [f"---- MODULE {module} ----",
@@ -362,12 +362,12 @@ def render_tla(zoo: dict, module: str = "Zoo", classes: list[str] | None = None)
         return _tla_str("none" if x is None else type(x).__name__)
     used = sorted({f["pool"] for c in order for f in zi.prop_fields(c)})
     simple = [pl for pl in used if all(isinstance(x, (str, int, type(None))) and str(x).isprintable() and str(x).isascii()
-                                       for x in _P.POOLSETS["plain"][pl][:3])]
+                                       for x in _P.POOLSETS[poolset][pl][:3])]
     L.append("PoolOf == " + _tla_rec(
         (c, _tla_rec((f["n"], _tla_str(f["pool"])) for f in zi.prop_fields(c))) for c in order))
     L.append("SimplePools == " + _tla_set(_tla_str(pl) for pl in simple))
-    L.append("PoolStr == " + _tla_rec((pl, _tla_seq(chars(x) for x in _P.POOLSETS["plain"][pl][:3])) for pl in simple))
-    L.append("PoolType == " + _tla_rec((pl, _tla_seq(ttag(x) for x in _P.POOLSETS["plain"][pl][:3])) for pl in simple))
+    L.append("PoolStr == " + _tla_rec((pl, _tla_seq(chars(x) for x in _P.POOLSETS[poolset][pl][:3])) for pl in simple))
+    L.append("PoolType == " + _tla_rec((pl, _tla_seq(ttag(x) for x in _P.POOLSETS[poolset][pl][:3])) for pl in simple))
     # the atom a property takes when the constructor is called without it (99: the default is not a pool value)
     def default_atom(f):
         if "default" not in f or f.get("default") is None:
@@ -376,7 +376,7 @@ def render_tla(zoo: dict, module: str = "Zoo", classes: list[str] | None = None)
             val = eval(f["default"], {})
         except Exception:
             return 99
-        pool = _P.POOLSETS["plain"][f["pool"]]
+        pool = _P.POOLSETS[poolset][f["pool"]]
         idx = [j for j, x in enumerate(pool) if type(x) is type(val) and x == val]
         return idx[0] if idx else 99
     L.append("DefaultAtom == " + _tla_rec(
